@@ -646,6 +646,21 @@ fn soup_case(m: &mut Model, rep: &mut Report, r: &mut Rng, words: Vec<String>, s
     let tag: String = imp.split(' ').take(3).enumerate().filter(|(i, w)| *i < 2 || !w.chars().all(|c| c.is_ascii_digit())).map(|(_, w)| w).collect::<Vec<_>>().join("_");
     let tag = if imp.starts_with("ok") { "ok".to_string() } else { tag };
     rep.hit(&format!("{stream}.result.{}", tag.replace(')', "rparen")));
+    // normal form on the implementation: re-print the accepted tree minimally, parse again, same AST
+    if imp.starts_with("ok") {
+        let norm = m.ask(&format!("normal {}", words.join(" ")));
+        if let Some(nw) = norm.strip_prefix("ok ") {
+            let nwords = words_of(nw);
+            let rd2 = render(&nwords, &atoms, r, false);
+            let imp2 = real_parse_expr(&rd2);
+            rep.hit(if nwords == words { "normal_form.already_minimal" } else { "normal_form.reprinted_differently" });
+            if imp2 != imp {
+                viol_once(rep, "neumann_parser::parse_expr/normal_form",
+                    &format!("minimal re-print of an accepted expression parses differently: {imp} vs {imp2}"),
+                    json!({"text": rd.text, "reprinted": rd2.text}));
+            }
+        }
+    }
     // statement parser on the same tokens: compared only when the model accepts (a statement ignores
     // trailing tokens and continues with GROUP BY…, so its error behaviour is not the expression core's)
     let smodel = expand(&m.ask(&format!("{} {}", stmt_model_op(), words.join(" "))), &atom_sx);
